@@ -14,6 +14,9 @@ pub struct GeneratedAST {
 
     /// Metadata to describe the pipeline that has been generated
     pub pipeline_description: PipelineDescription,
+
+    /// Names the entry points of the selected pipeline were generated with - in the order of the pipeline stages
+    pub stage_entry_points: Vec<String>,
 }
 
 /// Error result when generating HLSL fails
@@ -67,9 +70,19 @@ pub fn generate_module(
 
     let root_definitions = simplify_namespaces(root_definitions);
 
+    // The entry points may have been renamed to avoid reserved names - report the names we gave them
+    let mut stage_entry_points = Vec::new();
+    if let Some(pipeline) = module.selected_pipeline {
+        for stage in &module.pipelines[pipeline].stages {
+            let name = context.get_function_name_full(stage.entry_point)?;
+            stage_entry_points.push(name.0.join("::"));
+        }
+    }
+
     Ok(GeneratedAST {
         ast_module: ast::Module { root_definitions },
         pipeline_description: context.pipeline_description,
+        stage_entry_points,
     })
 }
 
